@@ -143,4 +143,117 @@ theorem discard_depended_on_delivery_on_pinned :
   · decide
   · decide
 
+/-! ### `ResponseEnded` adds no case of its own during the drain -/
+
+/-- the instrumented loop is the loop -/
+theorem readLoopSaw_eq : ∀ (fuel : Nat) (s : Script) (n : Nat) (acc : Bytes),
+    (readLoopSaw fuel s n).2 = ((readLoop fuel s n acc).2.1, (readLoop fuel s n acc).2.2)
+  | 0, s, n, acc => by simp [readLoopSaw, readLoop]
+  | fuel + 1, s, n, acc => by
+    unfold readLoopSaw readLoop
+    by_cases hn : n = 0
+    · simp [hn]
+    · simp only [hn, if_false]
+      rcases hr : read1 s n with ⟨b, e, s'⟩
+      simp only
+      by_cases hb : b.length ≥ n
+      · simp [hb]
+      · simp only [hb, if_false]
+        cases e with
+        | some err => simp
+        | none => simp only; exact readLoopSaw_eq fuel s' (n - b.length) (acc ++ b)
+
+/-- a read that reports the end with no data ends the loop with `io.EOF` -/
+theorem readLoopSaw_sound : ∀ (fuel : Nat) (s : Script) (n : Nat),
+    (readLoopSaw fuel s n).1 = true → (readLoopSaw fuel s n).2.1 = some .eof
+  | 0, s, n => by simp [readLoopSaw]
+  | fuel + 1, s, n => by
+    unfold readLoopSaw
+    by_cases hn : n = 0
+    · simp [hn]
+    · simp only [hn, if_false]
+      rcases hr : read1 s n with ⟨b, e, s'⟩
+      simp only
+      by_cases hb : b.length ≥ n
+      · simp only [hb, if_true]
+        intro h
+        simp only [Bool.and_eq_true, List.isEmpty_iff] at h
+        have : b.length = 0 := by rw [h.1]; rfl
+        omega
+      · simp only [hb, if_false]
+        cases e with
+        | some err =>
+          simp only
+          intro h
+          simp only [Bool.and_eq_true, beq_iff_eq, Option.some.injEq] at h
+          rw [h.2]
+        | none => simp only; exact readLoopSaw_sound fuel s' (n - b.length)
+
+/-- **drainSaw_atEnd**: if a read of the drain reports the end of the body, the drain's own
+    verdict is "at the end" - the flag the repaired client also consults never says more than
+    the drain does, *during* the drain. -/
+theorem drainSaw_atEnd (limit : Nat) (s : Script) (h : drainSaw limit s = true) : drain limit s = .atEnd := by
+  unfold drainSaw at h
+  unfold drain readExact
+  have heq := readLoopSaw_eq (limit + 1) s limit []
+  have hsound := readLoopSaw_sound (limit + 1) s limit
+  rcases hs : readLoopSaw (limit + 1) s limit with ⟨saw, e, s'⟩
+  rcases hl : readLoop (limit + 1) s limit [] with ⟨b, e2, s2⟩
+  rw [hs] at h heq hsound
+  rw [hl] at heq
+  simp only [Prod.mk.injEq] at heq
+  obtain ⟨he, hs'⟩ := heq
+  subst he hs'
+  simp only at h hsound ⊢
+  cases e with
+  | some err =>
+    simp only at h
+    have := hsound h
+    simp only [Option.some.injEq] at this
+    subst this
+    rfl
+  | none =>
+    simp only at h ⊢
+    rcases hr : read1 s' 1 with ⟨pb, pe, s''⟩
+    rw [hr] at h
+    simp only at h ⊢
+    rcases Bool.or_eq_true .. |>.mp h with h1 | h2
+    · have := hsound h1
+      cases this
+    · simp only [Bool.and_eq_true, List.isEmpty_iff, beq_iff_eq] at h2
+      obtain ⟨hpb, hpe⟩ := h2
+      subst hpb hpe
+      simp
+
+/-- **trailers_consulted_iff** (C03 for the amended F43): whether the gRPC client looks at the
+    HTTP trailers after a failed Receive depends on what had been seen before and on the bytes
+    that were left - at most `limit` of them, ending with `io.EOF` - and on nothing else: not on
+    the segmentation, not on how the end is delivered. -/
+theorem trailers_consulted_iff (endedBefore : Bool) (limit : Nat) (s : Script) (hwf : s.wf) :
+    trailersConsulted endedBefore limit s = true ↔
+      endedBefore = true ∨ (s.flat.length ≤ limit ∧ s.tail = .eof) := by
+  unfold trailersConsulted
+  rw [← drain_at_end_iff limit s hwf]
+  constructor
+  · intro h
+    rcases Bool.or_eq_true .. |>.mp h with h | h
+    · rcases Bool.or_eq_true .. |>.mp h with h | h
+      · exact Or.inl h
+      · exact Or.inr (by simpa using h)
+    · exact Or.inr (drainSaw_atEnd limit s h)
+  · intro h
+    rcases h with h | h
+    · simp [h]
+    · simp [h]
+
+theorem trailers_consulted_segmentation_independent (endedBefore : Bool) (limit : Nat) (s₁ s₂ : Script)
+    (h₁ : s₁.wf) (h₂ : s₂.wf) (h : s₁.abs = s₂.abs) :
+    trailersConsulted endedBefore limit s₁ = trailersConsulted endedBefore limit s₂ := by
+  have hf : s₁.flat = s₂.flat := congrArg Src.flat h
+  have ht : s₁.tail = s₂.tail := congrArg Src.tail h
+  have e1 := trailers_consulted_iff endedBefore limit s₁ h₁
+  have e2 := trailers_consulted_iff endedBefore limit s₂ h₂
+  rw [hf, ht] at e1
+  cases h1 : trailersConsulted endedBefore limit s₁ <;> cases h2 : trailersConsulted endedBefore limit s₂ <;> simp_all
+
 end ConnectModel
